@@ -21,7 +21,14 @@ RULE = (
     "interpreting the rendered text yields a model-equal value of the same "
     "deep type (int vs decimal at every position) that renders to the same "
     "text; built both through ckl.values constructors and from literal "
-    "source text. Also: every numeric result of a table of int/decimal "
+    "source text; (iv) the language itself calls the round-tripped value and "
+    "the permuted construction equal (==), and a set / map built from all "
+    "three has one element / key; (v) a generated sequence of mutations "
+    "(index and member assignment, put, remove, append, insert_at, "
+    "delete_at, nested targets) of a map, list, set or object renders the "
+    "same at the end whether or not renderings, hashing uses, spreads and "
+    "conversions of the container were interleaved, and round-trips. "
+    "Also: every numeric result of a table of int/decimal "
     "producing expressions renders according to its type(). Non-trivial = "
     "value with a character that needs escaping, a decimal outside "
     "[1e-4, 1e16), a negative number, or a collection nested in a set or map."
@@ -224,12 +231,190 @@ def check_numeric_expr(expr):
     return None
 
 
+def check_language_equality(v, variants):
+    """The round trip must give a value the *language* calls equal, and equal
+    values must be one element of a set / one key of a map, whatever order
+    their parts were written in."""
+    if known_class(v):
+        return None
+    a = mv.literal(v)
+    b = mv.literal(variants[0]) if variants else a
+    src = (f"def a = {a}; def b = {b}; def c = eval(string([a]))[0]; "
+           f"[a == b, b == a, a == c, c == a, c == b, "
+           f"string(<<a, b, c>>) == string(<<a>>), "
+           f"string(<<c, b, a>>) == string(<<a>>), "
+           f"string(<<<identity(a) => 0, identity(b) => 0, identity(c) => 0"
+           f">>>) == string(<<<identity(a) => 0>>>), "
+           f"string(c) == string(a), string(b) == string(a)]")
+    names = ["a == b", "b == a", "a == eval(string(a))",
+             "eval(string(a)) == a", "eval(string(a)) == b",
+             "<<a, b, c>> renders as <<a>>", "<<c, b, a>> renders as <<a>>",
+             "map keyed by a, b, c renders as map keyed by a",
+             "string(eval(string(a))) == string(a)", "string(b) == string(a)"]
+    out = cklrun.run(src, budget=20)
+    if out[0] != "value":
+        return Finding(f"C08|language-equality|{out[0]}",
+                       f"{src} -> {cklrun.short(out)}")
+    got = cklrun.to_model(out[1])
+    for g, nm in zip(got, names):
+        if g is not True:
+            return Finding(f"C08|language-equality|{nm}",
+                           f"a = {a}, b = {b} (same value, other construction"
+                           f" order), c = eval(string([a]))[0]: {nm} is {g!r}")
+    return None
+
+
+# ---- renderings interleaved with mutations
+
+KEY_POOL = ["1", "2", "3", "0", "'a'", "'b'", "'c'", "2.5", "TRUE", "[1]",
+            "<<1>>", "-1", "'B'", "10"]
+OBSERVERS = ["string(x)", "string([x])", "<<x>>", "<<<identity(x) => 1>>>",
+             "x == x", "[...x]", "<<...x>>", "length(x)",
+             "sorted(x)", "object(x)", "set(x)", "list(x)", "map(x)",
+             "[e for e in x]", "sum(x)", "x == []", "s('{x}')", "x in <<x>>",
+             "string(x[0])", "string(x[1])", "string(x['a'])",
+             "<<x[0]>>", "<<x['a']>>", "sprintf('{0}', x)"]
+
+
+def gen_mutation_case(ch):
+    def val(depth=1):
+        for _ in range(10):
+            v = gv.gen_value(ch, depth=ch.int(0, depth),
+                             kinds=("null", "boolean", "int", "decimal",
+                                    "string"), wide=False, maxlen=3)
+            if not known_class(v):
+                return mv.literal(v)
+        return "0"
+
+    def key():
+        return ch.choice(KEY_POOL)
+
+    kind = ch.weighted([(5, "map"), (3, "list"), (3, "set"), (1, "object")])
+    n0 = ch.int(0, 4)
+    if kind == "map":
+        ks = []
+        for _ in range(n0):
+            k = key()
+            if k not in ks:
+                ks.append(k)
+        base = "<<< " + ", ".join(f"{k} => {val()}" for k in ks) + " >>>"
+        if not ks:
+            base = "<<<>>>"
+    elif kind == "list":
+        base = "[" + ", ".join(val() for _ in range(n0)) + "]"
+    elif kind == "set":
+        base = "<< " + ", ".join(ch.choice([key(), val()])
+                                  for _ in range(n0)) + " >>"
+    else:
+        base = "<* " + ", ".join(f"{n} = {val()}" for n in
+                                  ["a", "b", "c", "d"][:n0]) + " *>"
+    steps = []
+    for _ in range(ch.int(1, 7)):
+        if ch.bool(0.45):
+            steps.append(("obs", ch.choice(OBSERVERS)))
+            continue
+        idx = str(ch.int(-2, 4))
+        if kind == "map":
+            m = ch.choice([f"x[{key()}] = {val()}", f"x[{key()}] = {val()}",
+                           f"put(x, {key()}, {val()})",
+                           f"remove(x, {key()})", f"x[{key()}] += 1",
+                           f"append(x[{key()}], {val(0)})",
+                           f"x[{key()}][{idx}] = {val(0)}",
+                           f"x[{key()}][{key()}] = {val(0)}",
+                           f"x !> put({key()}, {val()})"])
+        elif kind == "list":
+            m = ch.choice([f"x[{idx}] = {val()}", f"append(x, {val()})",
+                           f"insert_at(x, {idx}, {val()})",
+                           f"delete_at(x, {idx})", f"remove(x, {val()})",
+                           f"x[{idx}][{idx}] = {val(0)}",
+                           f"x[{idx}][{key()}] = {val(0)}",
+                           f"append(x[{idx}], {val(0)})",
+                           f"x !> append({val()})",
+                           f"append_all(x, [{val()}, {val()}])"])
+        elif kind == "set":
+            m = ch.choice([f"append(x, {key()})", f"append(x, {val()})",
+                           f"remove(x, {key()})", f"x !> append({key()})",
+                           f"append_all(x, [{key()}, {val()}])"])
+        else:
+            nm = ch.choice(["a", "b", "c", "e", "zz"])
+            m = ch.choice([f"x->{nm} = {val()}", f"x['{nm}'] = {val()}",
+                           f"remove(x, '{nm}')",
+                           f"append(x->{nm}, {val(0)})"])
+        steps.append(("mut", m))
+    return {"kind": "mutation", "container": kind, "base": base,
+            "steps": [list(s) for s in steps]}
+
+
+def _mutation_program(case, observed):
+    parts_ = [f"def x = {case['base']}", "def log = []"]
+    for what, text in case["steps"]:
+        if what == "obs":
+            if observed:
+                parts_.append(f"do {text} catch all NULL end")
+        else:
+            parts_.append(f"do {text}; append(log, 1) catch all "
+                          f"append(log, 0) end")
+    tail = "[string(x), string([x]), string(<<x>>), log"
+    if case["container"] != "object":
+        tail += (", eval(string([x]))[0] == x, "
+                 "string(eval(string([x]))) == string([x])")
+    parts_.append(tail + "]")
+    return "; ".join(parts_)
+
+
+def check_mutation(case):
+    pa = _mutation_program(case, True)
+    pb = _mutation_program(case, False)
+    oa = cklrun.run(pa, budget=20)
+    ob = cklrun.run(pb, budget=20)
+    if ob[0] != "value":
+        if oa[0] != ob[0]:
+            return Finding("C08|mutation|observed-run-ends-differently",
+                           f"{pa} -> {cklrun.short(oa)}; without the "
+                           f"observations -> {cklrun.short(ob)}")
+        return None
+    if oa[0] != "value":
+        return Finding("C08|mutation|observed-run-ends-differently",
+                       f"{pa} -> {cklrun.short(oa)}; without the "
+                       f"observations -> {cklrun.short(ob)}")
+    ga = cklrun.to_model(oa[1])
+    gb = cklrun.to_model(ob[1])
+    if ga[:4] != gb[:4]:
+        return Finding(f"C08|mutation|rendering-depends-on-earlier-"
+                       f"observation|{case['container']}",
+                       f"{pa} -> {ga[:3]!r}; the same mutations without the "
+                       f"intermediate observations -> {gb[:3]!r}")
+    if "NULL =>" in ga[0] or "//" in ga[0]:
+        return None          # open known findings (NULL key) / not data
+    for g in (ga, gb):
+        if len(g) > 4 and (g[4] is not True or g[5] is not True):
+            return Finding(f"C08|mutation|roundtrip-after-mutation|"
+                           f"{case['container']}",
+                           f"{pa if g is ga else pb} -> {g!r}: "
+                           f"eval(string(x)) == x is {g[4]!r}, second "
+                           f"rendering equal is {g[5]!r}")
+    return None
+
+
+def mutation_nontrivial(case):
+    seen_obs = False
+    for what, _ in case["steps"]:
+        if what == "obs":
+            seen_obs = True
+        elif seen_obs:
+            return True
+    return False
+
+
 def prop(case):
     k = case["kind"]
     if k == "value":
         v = dec(case["value"])
-        f = check_value(v, [dec(x) for x in case.get("variants", [])])
-        return f or check_literal_route(v)
+        vs = [dec(x) for x in case.get("variants", [])]
+        f = check_value(v, vs)
+        return f or check_literal_route(v) or check_language_equality(v, vs)
+    if k == "mutation":
+        return check_mutation(case)
     if k == "numexpr":
         return check_numeric_expr(case["expr"])
     raise ValueError(k)
@@ -260,11 +445,27 @@ def part_values(part, n):
         if nontrivial(v):
             part.nontriv(repr(v))
         part.cls("value:" + mv.kind(v), repr(v) if len(repr(v)) < 160 else None)
-        f = check_value(v, variants) or check_literal_route(v)
+        f = (check_value(v, variants) or check_literal_route(v) or
+             check_language_equality(v, variants))
         if f:
             return f, {"kind": "value", "value": repr(v),
                        "variants": [repr(w) for w in variants]}
     part.hyp(tapes(900), body, n)
+
+
+def part_mutations(part, n):
+    def body(tape):
+        ch = TapeChooser(tape)
+        case = gen_mutation_case(ch)
+        part.count()
+        if mutation_nontrivial(case):
+            part.nontriv(repr(case))
+        part.cls("mutation:" + case["container"],
+                 _mutation_program(case, True))
+        f = check_mutation(case)
+        if f:
+            return f, case
+    part.hyp(tapes(600), body, n)
 
 
 def part_scalars(part, n):
@@ -353,9 +554,13 @@ def parts(tier, seed):
         ps += [(f"scalars-{i}", part_scalars, {"n": 8000}) for i in range(4)]
         ps += [(f"orders-{i}", part_all_orders, {"n": 150}) for i in range(2)]
         ps += [("numexprs", part_numexprs, {})]
+        ps += [(f"mutations-{i}", part_mutations, {"n": 1500})
+               for i in range(3)]
     else:
         ps = [(f"values-{i}", part_values, {"n": 40000}) for i in range(8)]
         ps += [(f"scalars-{i}", part_scalars, {"n": 60000}) for i in range(4)]
         ps += [(f"orders-{i}", part_all_orders, {"n": 2500}) for i in range(3)]
         ps += [("numexprs", part_numexprs, {})]
+        ps += [(f"mutations-{i}", part_mutations, {"n": 25000})
+               for i in range(4)]
     return ps
